@@ -15,7 +15,10 @@ PROPS = {
         "rule": "an evaluation is one (base a, difference d) pair checked against the RFC 1982 predicate on the wrapped 32-bit difference "
                 "(compare, antisymmetry, operators, add, shift-invariance with a seeded shift, Timestamp agreement); quick sweeps every "
                 "difference in the blocks around 0, 2^31 and 2^32 and a stride-257 sample elsewhere from 8 bases, thorough sweeps all 2^32 "
-                "differences from the 8 bases; distinct = (base, outcome, top 4 bits of the difference) classes observed",
+                "differences from the 8 bases; plus the users of the arithmetic: zone diffs (accepted iff the end serial is RFC 1982-newer), signature "
+                "times in date form on both sides of 2106-02-07 through Timestamp::from_str and through the zone-file scanner (an RRSIG line with "
+                "date-form and integer-form times), and the validator's in-force decision for validity periods reaching almost 2^31 s back or ahead; "
+                "distinct = (base, outcome, top 4 bits of the difference) classes observed",
         "assumptions": ["the reference predicate (signed view of the wrapped difference) is the RFC 1982 definition for SERIAL_BITS=32",
                         "Serial::add is only called with addends <= 2^31-1 (documented contract)"],
     },
@@ -48,7 +51,9 @@ PROPS = {
         "rule": "an evaluation is one builder state x operation (boundary enumeration: closed length 186..254 x open label 0..63 x op x argument length; "
                 "quick takes every state within 12 octets of the limit and a stride elsewhere, thorough the whole space on Vec and BytesMut), one random "
                 "builder sequence, one wire input through every from_octets/from_slice/parse constructor, one presentation text through every FromStr/"
-                "from_chars, or one name through the conversion/chain/slice/strip/parent operations at its valid label boundaries; every produced value is "
+                "from_chars, one octet string or text through the serde routes (Deserialize of Name / RelativeName / UncertainName / OwnedLabel over a compact "
+                "format handing the visitor raw octets - owned, borrowed, transient - and over a human readable one; existing values serialized over both and "
+                "read back), or one name through the conversion/chain/slice/strip/parent operations at its valid label boundaries; every produced value is "
                 "checked by the independent validator; distinct = (op, state class, model verdict, library verdict) resp. (constructor verdict vector, length class)",
         "assumptions": ["limits: label 1..63, absolute name <= 255 with exactly one trailing root label, relative name <= 254 without root label (RFC 1035 2.3.4, 3.1)",
                         "slicing calls are only made at valid label boundaries (documented panics otherwise)",
@@ -328,7 +333,10 @@ PROPS = {
                 "owners that are not Base32hex / too long / not UTF-8 / too short, wrong hash lengths, 65535 iterations, unknown hash algorithm, broken bitmaps, "
                 "NSEC next names outside the zone or equal to the owner, DNSKEY RRsets with empty or short RSA keys or 40 extra keys, DS RRsets with short "
                 "RDATA, unknown digest types or 40 extra members) must only not panic or run away; DNAME chains and a zone signed with an imported RSA key "
-                "are part of the hierarchy; no panic, at most 200 upstream requests per validation; distinct = (kind of answer, denial type, fault, outcome)",
+                "are part of the hierarchy; (e) forgeries assembled from validly signed parts: an NXDOMAIN proven with the wrap-around NSEC of a child zone, "
+                "a signature naming an unsigned zone as signer, and a genuine wildcard RRset replayed (with the genuine NSEC/NSEC3 covering the name) as the "
+                "answer for a name below an existing sibling of the wildcard; (f) one validation context across a key withdrawal and a signature expiry; "
+                "no panic, at most 200 upstream requests per validation; distinct = (kind of answer, denial type, fault, outcome)",
         "assumptions": ["ground truth comes from the construction: every fault removes or invalidates the only signature, record or proof the answer depends on",
                         "the validator reads the wall clock; signatures are made valid from one hour ago to seven days ahead, expired / future ones ten days off",
                         "a delegation whose DS RRset names only algorithms outside dnssec::validator::base::supported_algorithm is insecure (RFC 4035 5.2)",
@@ -349,7 +357,9 @@ PROPS = {
                 "request, questionless error with a wrong ID) and then nothing, a late answer (2.5-9 s), a questionless SERVFAIL, a truncated datagram, a "
                 "connection close (possibly mid-frame), a re-cased question or the answer, sometimes duplicated up to 6 s later; stream connects may be "
                 "refused; every fourth case the peer is honest (each request answered once, correctly, within 0.8 s, in any order) and every request must "
-                "succeed. Oracle over the caller's result joined with the peer's log of (wire ID, query name): an Ok message has QR set, an ID that was used for "
+                "succeed; on the plain stream transport (real time, delays a tenth as long) also a silent peer under a trickle of requests, and a connection "
+                "that is used again after it fell idle: a few requests answered, a pause inside the idle timeout, then one request the peer never answers, "
+                "which has to fail within the response timeout. Oracle over the caller's result joined with the peer's log of (wire ID, query name): an Ok message has QR set, an ID that was used for "
                 "this very request, and this request's question (or, without question, an error rcode and empty sections); every request completes, and within "
                 "the transport's timeout-and-retry budget (virtual time); a truncated datagram answer is only handed out after the stream was tried; no panic; "
                 "distinct = (transport, outcome class, rcode/TC, virtual latency class, number of transmissions)",
@@ -376,7 +386,11 @@ PROPS = {
                 "in chunks of 1..all octets, every fifth aborted at a random octet, hostile frames (zero length, shorter than a header, never completed, half "
                 "a length prefix), then a probe connection: every octet the server writes parses as length-prefixed messages, each the response to a request "
                 "of that connection, the right number of them and in the service's order, nothing needlessly truncated; the server task stays alive, no task "
-                "panics; distinct = (transport, service kind, EDNS class, configured maximum, TC, size class) resp. (kind, count, chunking, pipeline depth)",
+                "panics; a third of the cases add a requester that reads slowly through a pipe of 128-4096 octets (waits 3.5-20 s, longer than the idle timeout "
+                "of 3 s, shorter than the response write timeout) and must still get every frame whole. Connection churn: a server allowing 2-4 concurrent "
+                "connections sees 5-14 connections one after the other (served and closed, aborted mid-request, hostile octets, a handshake whose accept "
+                "future fails, left to its idle timeout, closed without a word); each connection that sends a request, and a probe at the end, must be "
+                "answered (no ending may keep its place in the connection count); distinct = (transport, service kind, EDNS class, configured maximum, TC, size class) resp. (kind, count, chunking, pipeline depth)",
         "assumptions": ["a connection that carried hostile input may be closed by the server: requests behind it need not be answered",
                         "a hostile datagram may be answered (at most once, with its ID) or dropped"],
     },
@@ -392,7 +406,7 @@ PROPS = {
                 "is a history of 8-60 queries over 4 names x {A, TXT} with every combination of RD/CD/AD/DO and occasional upper-case spelling, the clock "
                 "moved between queries by 0, fractions of a second, amounts around 1/2/5/30/60/75/90/100/300 s, or up to an hour; each name answers in one way "
                 "(positive with NS/glue and, under DO, RRSIGs; NODATA and NXDOMAIN with SOA and, under DO, NSEC/NSEC3/RRSIG; delegation; SERVFAIL/REFUSED; "
-                "truncated; transport failure; empty NOERROR) with TTLs from {0,1,2,5,30,59,60,61,300,...}; every upstream response carries a unique "
+                "truncated; transport failure; empty NOERROR; an alias: CNAME plus the target's data, CNAME plus SOA as NODATA, CNAME plus SOA as NXDOMAIN) with TTLs from {0,1,2,5,30,59,60,61,300,...}; every upstream response carries a unique "
                 "marker, so a response served without asking upstream names the response it was made from; cache configuration (maximum validity, NXDOMAIN / "
                 "NODATA / delegation bounds, error and failure durations, cache_truncated, 1-1000 entries) random. Oracle: a cached response is upstream's "
                 "answer to the same name and type, for flags it is compatible with (RD only from RD, CD equal, DO only from DO, AD from AD or DO), with the "
